@@ -26,6 +26,64 @@ use tokio_stream::Stream;
 use tonic::codec::{BufferSettings, CompressionEncoding, DecodeBuf, Decoder, EncodeBody, EncodeBuf, Encoder};
 use tonic::{Status, Streaming};
 
+// ---------- byte strings in tokens: bare hex with run-length groups ----------
+
+/// Bare hex; a run of 32 or more equal bytes is written `(bb*N)`.  Canonical (greedy, maximal runs
+/// from the left), so that the Lean side renders the same bytes to the same text.  Keeps cases
+/// with 16 MiB messages (rev1 S5) a few hundred bytes long.
+pub fn hexr(b: &[u8]) -> String {
+    const D: &[u8; 16] = b"0123456789abcdef";
+    let mut s = String::with_capacity(64.min(b.len()) * 2);
+    let mut i = 0;
+    while i < b.len() {
+        let x = b[i];
+        let mut j = i + 1;
+        while j < b.len() && b[j] == x {
+            j += 1;
+        }
+        if j - i >= 32 {
+            s.push('(');
+            s.push(D[(x >> 4) as usize] as char);
+            s.push(D[(x & 15) as usize] as char);
+            s.push('*');
+            s.push_str(&(j - i).to_string());
+            s.push(')');
+            i = j;
+        } else {
+            s.push(D[(x >> 4) as usize] as char);
+            s.push(D[(x & 15) as usize] as char);
+            i += 1;
+        }
+    }
+    s
+}
+
+pub fn unhexr(s: &str) -> Vec<u8> {
+    let b = s.as_bytes();
+    let v = |c: u8| -> u8 {
+        match c {
+            b'0'..=b'9' => c - b'0',
+            b'a'..=b'f' => c - b'a' + 10,
+            _ => panic!("bad hex digit in case token"),
+        }
+    };
+    let mut out = Vec::new();
+    let mut i = 0;
+    while i < b.len() {
+        if b[i] == b'(' {
+            let close = i + s[i..].find(')').expect("unterminated run");
+            let (byte, n) = s[i + 1..close].split_once('*').expect("(bb*N)");
+            let x = v(byte.as_bytes()[0]) * 16 + v(byte.as_bytes()[1]);
+            out.resize(out.len() + n.parse::<usize>().unwrap(), x);
+            i = close + 1;
+        } else {
+            out.push(v(b[i]) * 16 + v(b[i + 1]));
+            i += 2;
+        }
+    }
+    out
+}
+
 pub fn noop_waker() -> Waker {
     fn clone(_: *const ()) -> RawWaker {
         RawWaker::new(std::ptr::null(), &VT)
@@ -395,10 +453,10 @@ fn exec_enc_with(t: &[&str], prost: bool) -> String {
     let evs: VecDeque<SrcEv> = t[ev_start(t)..]
         .iter()
         .map(|e| match e.as_bytes()[0] {
-            b'i' => SrcEv::Item(unhex(&format!("x{}", &e[1..])).unwrap()),
+            b'i' => SrcEv::Item(unhexr(&e[1..])),
             b'f' => {
                 let (k, h) = e[1..].split_once('.').expect("f<k>.<hex>");
-                SrcEv::FailItem(unhex(&format!("x{}", h)).unwrap(), k.parse().unwrap())
+                SrcEv::FailItem(unhexr(h), k.parse().unwrap())
             }
             b'e' => SrcEv::Err(e[1..].parse().unwrap()),
             _ => SrcEv::Pending,
@@ -445,7 +503,7 @@ fn exec_enc_with(t: &[&str], prost: bool) -> String {
             Poll::Ready(Some(Err(st))) => out.push(st_tok("e", &st)),
             Poll::Ready(Some(Ok(frame))) => {
                 if frame.is_data() {
-                    out.push(format!("d{}", &hex(&frame.into_data().unwrap())[1..]));
+                    out.push(format!("d{}", hexr(&frame.into_data().unwrap())));
                 } else {
                     let tr = frame.into_trailers().unwrap();
                     let st = Status::from_header_map(&tr).unwrap_or_else(|| Status::unknown("no grpc-status in trailers"));
@@ -480,7 +538,7 @@ fn exec_dec_with(t: &[&str], prost: bool) -> String {
     let evs: VecDeque<BodyEv> = t[ev_start(t)..]
         .iter()
         .map(|e| match e.as_bytes()[0] {
-            b'd' => BodyEv::Data(unhex(&format!("x{}", &e[1..])).unwrap()),
+            b'd' => BodyEv::Data(unhexr(&e[1..])),
             b't' => BodyEv::Trailers(if &e[1..] == "none" { None } else { Some(e[1..].parse().unwrap()) }),
             b'e' => BodyEv::Err(e[1..].parse().unwrap()),
             _ => BodyEv::Pending,
@@ -531,7 +589,7 @@ fn exec_dec_with(t: &[&str], prost: bool) -> String {
             Poll::Pending => out.push("p".to_string()),
             Poll::Ready(None) => out.push("n".to_string()),
             Poll::Ready(Some(Err(st))) => out.push(st_tok("e", &st)),
-            Poll::Ready(Some(Ok(m))) => out.push(format!("m{}", &hex(&m)[1..])),
+            Poll::Ready(Some(Ok(m))) => out.push(format!("m{}", hexr(&m))),
         }
         if after.load(std::sync::atomic::Ordering::SeqCst) > 1000 {
             out.push("busy-loop".into());
@@ -681,10 +739,10 @@ pub fn gen_enc_case(rng: &mut Rng, errors: bool, limit: bool) -> EncCase {
         if errors && rng.chance(1, 8) {
             // `Encoder::encode` fails on this item after writing some of it
             let k = rng.below(m.len() as u64 + 1) as usize;
-            evs.push(format!("f{}.{}", k, &hex(&m)[1..]));
+            evs.push(format!("f{}.{}", k, hexr(&m)));
             continue;
         }
-        evs.push(format!("i{}", &hex(&m)[1..]));
+        evs.push(format!("i{}", hexr(&m)));
         items.push(m);
     }
     while rng.chance(1, 3) {
@@ -825,7 +883,7 @@ pub fn events_from_chunks(rng: &mut Rng, chunks: Vec<Vec<u8>>, pendings: bool) -
         while pendings && rng.chance(1, 4) {
             evs.push("p".to_string());
         }
-        evs.push(format!("d{}", &hex(&c)[1..]));
+        evs.push(format!("d{}", hexr(&c)));
     }
     while pendings && rng.chance(1, 4) {
         evs.push("p".to_string());
